@@ -82,10 +82,11 @@ struct SaTwin {
 
 string do_sandnet(const vector<string> &a) {
   if (a.size() < 3) return "bad-args";
-  SaTwin t[3];
+  SaTwin t[4];
   t[0].setup(a[1]);
   t[1].setup(a[1]);
   t[2].setup(a[1]);
+  t[3].setup(a[1]);
   c06::Trace tr;
   for (size_t k = 2; k < a.size(); k++) {
     string s = a[k];
@@ -98,7 +99,9 @@ string do_sandnet(const vector<string> &a) {
     string o1 = t[1].deliver(c06::POISON[1], d, self, control);
     string o2;
     { c06::PrevMode pm; o2 = t[2].deliver(c06::POISON[2], d, self, control); }
-    tr.add3(o0, o1, o2);
+    string o3;
+    { c06::KernelMode km; o3 = t[3].deliver(c06::POISON[3], d, self, control); }
+    tr.add4(o0, o1, o2, o3);
   }
   return tr.result();
 }
